@@ -302,6 +302,9 @@ func (fr *Frame) run(st0 *State, reach0 Term) []retPoint {
 						}
 					}
 					for j, c := range fr.fc.RetAssert {
+						if k := fr.fc.RetAssertK[j]; k != 0 && k != ord {
+							continue
+						}
 						fr.obligeParts(fmt.Sprintf("ret%d.assert%s.%d", ord, labelSuffix(c), j+1), "ret-assert", reach, env, c)
 					}
 				}
